@@ -59,7 +59,7 @@ class Drive:
     """One interpreter over an instrumented spec, with its queue model."""
 
     def __init__(self, spec, sc=None, ignore_contract=True, ctx_extra=None, interpreter=None,
-                 clock=None, record_meta=False):
+                 clock=None, record_meta=False, evaluator_klass=None):
         from sismic.interpreter import Interpreter
         self.spec = spec
         self.tree = Tree(spec)
@@ -70,6 +70,8 @@ class Drive:
             kw = {}
             if clock is not None:
                 kw['clock'] = clock
+            if evaluator_klass is not None:
+                kw['evaluator_klass'] = evaluator_klass
             self.interp = Interpreter(self.sc, initial_context=probes.new_context(ctx_extra),
                                       ignore_contract=ignore_contract, **kw)
         else:
